@@ -4,7 +4,8 @@ import vlib, s1, gen, s1eval
 PROP = "C05"
 EDITS = ["none", "deldir", "flip", "truncate", "append", "addfile", "adddir", "delete", "rename", "relink", "dangle", "swap_f2d",
          "swap_d2f", "below_norec", "uncopy", "rmobj", "rmart", "checkout_other", "lookalike", "movecache", "rmman", "emptied_rmman",
-         "uncommitted", "same_size_old_mtime", "same_size_old_mtime", "rmobj_of_copy", "rmobj_of_copy", "dir_to_outside_link", "dir_to_outside_link"]
+         "uncommitted", "same_size_old_mtime", "same_size_old_mtime", "rmobj_of_copy", "rmobj_of_copy", "dir_to_outside_link", "dir_to_outside_link",
+         "emptied_damaged_man", "emptied_damaged_man"]
 
 
 def make_cases(rng, tier, n):
@@ -37,6 +38,16 @@ def make_cases(rng, tier, n):
             c["init"].append(("file", shared_in, "g:%d:12" % rng.randrange(1000)))
             for sp_, st_ in c["stages"][:2]:
                 st_.setdefault("in", []).append((shared_in, ""))
+        if i % 14 == 4:
+            # sub-directories and files whose names CONTAIN the field names of the manifest schemas (old and new)
+            d0 = [a for a in s1eval.artifacts(c) if a[1] == "d"]
+            if d0:
+                for nm in (b"IsDirty", b"IsDir", b"my-Checksum-s", b"SkipCachePath", b"Contents", b"is-dir.d", b'"IsDir":true'):
+                    if not any(e[1] == d0[0][0] + b"/" + nm for e in c["init"]):
+                        c["init"].append(("dir", d0[0][0] + b"/" + nm))
+                        c["init"].append(("file", d0[0][0] + b"/" + nm + b"/inner.txt", "g:%d:%d" % (rng.randrange(1000), rng.choice([0, 7, 300]))))
+                        c["init"].append(("file", d0[0][0] + b"/" + nm + b".IsDir.txt", "g:%d:4" % rng.randrange(1000)))
+                stats["schema_field_names"] = stats.get("schema_field_names", 0) + 1
         strat = rng.choice("lc")
         arts = s1eval.artifacts(c)
         files = [e for e in c["init"] if e[0] == "file"]
@@ -109,7 +120,8 @@ def make_cases(rng, tier, n):
         elif edit == "dir_to_outside_link" and (dirs_in or dart):
             # a committed directory (the artifact itself or a sub-directory) is replaced by a symbolic link to a directory OUTSIDE the
             # project that holds the same names and bytes: the entry is a link now, not the committed directory
-            tgt = rng.choice([d[1] for d in dirs_in] + [a[0] for a in dart if "r" not in a[1]] * 2) if (dirs_in or dart) else None
+            pool_ = [d[1] for d in dirs_in] + [a[0] for a in dart if "r" not in a[1]] * 2
+            tgt = rng.choice(pool_) if pool_ else None
             if tgt and not any("r" in a[1] and tgt.startswith(a[0] + b"/") for a in dart):
                 ops.append(("dirlink", tgt))
             else:
@@ -130,6 +142,11 @@ def make_cases(rng, tier, n):
             # the workspace directory ends up empty and a manifest is gone from the cache
             a = rng.choice(dart)[0]
             ops += [("rm", a), ("mkdir", a), ("rmobj", "m%d" % rng.randrange(50))]
+        elif edit == "emptied_damaged_man" and (dart or dirs_in):
+            # a committed directory (the artifact or a sub-directory) is empty now and a manifest object is damaged (truncated /
+            # half-written): whatever status can still say, not "up to date"
+            a = rng.choice(([x[0] for x in dart if "r" not in x[1]] + [d[1] for d in dirs_in]) or [(dart or dirs_in)[0][0 if dart else 1]])
+            ops += [("rm", a), ("mkdir", a), ("corrupt", "m%d" % rng.randrange(50), rng.choice(["g:5:33", "g:5:0", "g:6:1"]))]
         elif edit == "uncommitted":
             ops = []
         elif edit == "rmart" and arts:
@@ -138,6 +155,9 @@ def make_cases(rng, tier, n):
             ops += [("clone", [b"workdir", b"workdir/inner"] if c.get("cwd") else []), ("checkout", rng.choice("lc"), False, [])]
         else:
             edit = "none"
+        if i % 14 == 4 and edit == "none":
+            edit = "checkout_other"
+            ops += [("clone", [b"workdir", b"workdir/inner"] if c.get("cwd") else []), ("checkout", rng.choice("lc"), False, [])]
         c["shared_in"] = shared_in
         if shared_in and ops and edit == "none":
             # the input changes and only ONE of the two stages is committed again (or the old version comes back)
